@@ -54,7 +54,7 @@ import (
 // use a timestamp position are not issued while the newest segment is empty; everything else
 // about the age-rolled shape is still judged. The generator copies the switch into the
 // program (parameter avoid_empty_active_ts) so that a replay carries its own setting.
-const c10AvoidEmptyActiveSegmentTimestamps = true
+const c10AvoidEmptyActiveSegmentTimestamps = false // (repaired, see known_findings.json; the shape is generated)
 
 // c10AvoidStopOnEmptiedLog: when retention has removed every segment but an empty newest one
 // (age roll, then a message or age limit that the last non-empty segment alone exceeds), the log
@@ -124,6 +124,17 @@ func genC10(r *simrt.Rand, tier string, idx int) *hx.Program {
 	p.P["avoid_emptied_log_stop"] = c10b(c10AvoidStopOnEmptiedLog && !strings.Contains(show, ",emptied_log_stop,"))
 	p.P["avoid_trim_above_hw"] = c10b(c10AvoidTrimAboveHW && !strings.Contains(show, ",trim_above_hw,"))
 	p.P["avoid_trim_under_parked"] = c10b(c10AvoidTrimUnderParked && !strings.Contains(show, ",trim_under_parked,"))
+	// One program in forty generates one of the three recorded findings again (they are avoided elsewhere so
+	// that they hide nothing): its violations carry the shape's name and are matched against
+	// known_findings.json. The shapes need an age-rolled newest segment and retention.
+	if sh := r.Intn(120); sh < 3 && show == ",," {
+		p.P["age"], p.P["compact"] = 1, 0
+		if p.P["trim"] == 0 {
+			p.P["trim"] = 4
+		}
+		p.P["shape"] = int64(sh + 1)
+		p.P[[]string{"avoid_emptied_log_stop", "avoid_trim_above_hw", "avoid_trim_under_parked"}[sh]] = 0
+	}
 	if p.P["age"] == 1 && p.P["trim"] > 0 && p.P["avoid_trim_above_hw"] == 1 {
 		p.P["tail"] = 0
 	}
@@ -1414,6 +1425,15 @@ func execC10(t *testing.T, prog *hx.Program, dec *simrt.Decider, verbose bool) *
 	oc.Nontrivial = judged >= 3 && oc.Checks >= 3
 	if oc.Counters == nil {
 		oc.Counters = map[string]int{}
+	}
+	if sh := prog.Param("shape", 0); sh >= 1 && sh <= 3 {
+		name := []string{"log-emptied-by-retention", "segment-of-the-high-watermark-trimmed", "segment-trimmed-under-a-caught-up-subscriber"}[sh-1]
+		oc.Counters["probe.recorded_shape_generated."+name]++
+		for i, v := range oc.Viol {
+			if strings.HasPrefix(v.Sig, "C10/") && !strings.HasPrefix(v.Sig, "C10/reference") {
+				oc.Viol[i].Sig = "C10/recorded-shape/" + name
+			}
+		}
 	}
 	oc.Counters["probe.requests_judged"] = judged
 	oc.Counters["probe.requests_unspecified_by_docs"] = unspecified
